@@ -87,13 +87,14 @@ theorem updFinish_storedLe (s : St) (hc : CfgOk s.cfg) (m next : Nat) (save : Op
     · exact C02.optLe_trans h1 (storedLe_of_eq (by simp [stepDown]))
 
 theorem syncFinish_storedLe (s : St) (hc : CfgOk s.cfg) (m : Nat) (last : Option Nat) (now : Nat) (f : Fault)
-    (hlast : s.leader = m → m ≠ 0 → last = s.stored) : storedLe s (syncFinish s m last now f).1 := by
+    (hlast : s.leader = m → m ≠ 0 → coversStored s.stored last) : storedLe s (syncFinish s m last now f).1 := by
   unfold syncFinish
   simp only
   have h1 := saveTxn_storedLe s m (syncNext s.cfg last now + s.cfg.saveInterval) f (by
     intro hl h0 S hS
-    have := hlast hl h0; rw [hS] at this; subst this
-    have := syncNext_ge s.cfg S now; omega)
+    obtain ⟨L, hL, hSL⟩ := hlast hl h0 S hS
+    subst hL
+    have := syncNext_ge s.cfg L now; omega)
   generalize saveTxn s m (syncNext s.cfg last now + s.cfg.saveInterval) f = r at h1
   obtain ⟨s1, b, o⟩ := r
   simp only at h1 ⊢
@@ -154,6 +155,7 @@ theorem stored_monotone_step (s : St) (h : Inv s) (hc : CfgOk s.cfg) (op : Op) :
   | lead m => simp only [step]; split <;> exact storedLe_of_eq rfl
   | expire m => exact storedLe_of_eq rfl
   | resign => exact storedLe_of_eq rfl
+  | extWin v => exact storedLe_of_eq rfl
   | dropKey => exact storedLe_of_eq rfl
   | getTS m count =>
     simp only [step, getTS]
@@ -194,7 +196,7 @@ theorem stored_monotone_step (s : St) (h : Inv s) (hc : CfgOk s.cfg) (op : Op) :
     simp only [step]
     split
     · exact storedLe_of_eq rfl
-    · exact syncFinish_storedLe s hc m s.stored now f (fun _ _ => rfl)
+    · exact syncFinish_storedLe s hc m _ now f (fun _ _ => coversStored_optMax _ _)
   | gsync m now => simp only [step]; split <;> exact storedLe_of_eq rfl
   | finish m f =>
     simp only [step]
@@ -250,6 +252,36 @@ theorem grant_obs_ok (s : St) (h : Inv s) (hc : CfgOk s.cfg) (op : Op) (hf : op.
   · simp only [obsOf] at hms
     generalize (step s op).2 = o at hnot hms
     cases o <;> simp_all [Out.isTs]
+
+/-- what `loadTimestamp` returns covers the other allocators' windows too -/
+theorem optMax_ge_right (a : Option Nat) (E : Nat) : ∃ L, optMax a (some E) = some L ∧ E ≤ L := by
+  cases a with
+  | none => exact ⟨E, rfl, Nat.le_refl _⟩
+  | some x => exact ⟨max x E, rfl, Nat.le_max_right _ _⟩
+
+/-- **A (re)initialised global allocator starts above every window persisted under its root**, also the
+    dc-location allocators' ones (`loadTimestamp` takes the maximum over all of them): after a successful
+    synchronisation of a reset allocator its physical time is at least `guard` above such a window. -/
+theorem sync_above_other_windows (s : St) (m now : Nat) (f : Fault) (E : Nat) (hE : s.ext = some E)
+    (hp : (s.mems m).phys = none) (hpend : (s.mems m).pend = none)
+    (hok : (step s (.sync m now f)).2 = .ok) :
+    ∃ p, ((step s (.sync m now f)).1.mems m).phys = some p ∧ E + s.cfg.guard ≤ p := by
+  obtain ⟨L, hL, hEL⟩ := optMax_ge_right s.stored E
+  have hge := syncNext_ge s.cfg L now
+  simp only [step, hpend, Option.isSome_none, Bool.false_eq_true, if_false, hE, hL] at hok ⊢
+  unfold syncFinish at hok ⊢
+  simp only at hok ⊢
+  have hspec := saveTxn_spec s m (syncNext s.cfg (some L) now + s.cfg.saveInterval) f
+  generalize saveTxn s m (syncNext s.cfg (some L) now + s.cfg.saveInterval) f = r at hspec hok ⊢
+  obtain ⟨s1, b, o⟩ := r
+  simp only at hspec hok ⊢
+  rcases hspec with ⟨ho, hl, h0, hst, hld, hcfg, hgr, hrec, hoth⟩ | ⟨ho, hl, h0, rfl, _⟩ | ⟨ho, rfl⟩
+  · subst ho
+    simp only [if_pos]
+    refine ⟨syncNext s.cfg (some L) now, ?_, by omega⟩
+    simp [hrec, setPhys, hp]
+  · rw [if_neg ho] at hok; exact absurd hok ho
+  · rw [if_neg ho] at hok; exact absurd hok ho
 
 /-- **C02.** For every history: the durably stored window bound never decreases, and every granted
     timestamp's physical part is strictly below the bound stored at the moment of the grant. -/
